@@ -2,6 +2,7 @@ import ComposeVerif.Model.Paths
 import ComposeVerif.Spec.Paths
 import ComposeVerif.Lemmas.PathsTree
 import ComposeVerif.Lemmas.PathsWinSpec
+import ComposeVerif.Lemmas.PathsCompose
 import ComposeVerif.Gen.Tables
 import ComposeVerif.Gen.PathsConsts
 import ComposeVerif.Neg.C12
@@ -446,5 +447,42 @@ theorem resolve_compose_mount_partial (home : Option Str) (remote : Str → Bool
       (isAbs (expandUser home s) = false → isWindowsAbs? (expandUser home s) = some false → isWindowsAbs? m = some false)) :
     maybeUnixStr ⟨W, home, remote, sym⟩ m = maybeUnixStr ⟨join W R, home, remote, sym⟩ s :=
   maybeUnixStr_compose home remote sym W R s m hW hR hRr h1 hplain
+
+/-- **whole trees**: if at every path-attribute node the second stage composes with the first (`ComposeAt`), then
+resolving the stage-1 result against `W` is resolving the original tree against `Join(W, R)` — same result tree,
+same error, same panic -/
+theorem resolve_compose_tree (c1 c2 c12 : Cfg) (v v1 : Val)
+    (hr : RowsOK (ComposeAt c1 c2 c12) CV.Gen.resolvers TPath.root v) (h : resolve c1 v = .ok v1) :
+    resolve c2 v1 = resolve c12 v :=
+  walk_compose _ c1 c2 c12 _ v v1 hr h
+
+/-- `ComposeAt` holds at a string-valued env_file / label_file node whose first-stage value does not start with `~` … -/
+theorem compose_at_local (home : Option Str) (remote : Str → Bool) (W R : Str) (hW : W ≠ []) (hR : R ≠ [])
+    (hRr : isAbs R = false) (s : String) (hplain : tilde (absPathStr ⟨R, home, remote, some⟩ s.toList) = false) :
+    ComposeAt ⟨R, home, remote, some⟩ ⟨W, home, remote, some⟩ ⟨join W R, home, remote, some⟩ "absPath" (.str s) ∧
+    ComposeAt ⟨R, home, remote, some⟩ ⟨W, home, remote, some⟩ ⟨join W R, home, remote, some⟩ "absSymbolicLink" (.str s) :=
+  ⟨composeAt_absPath home remote W R hW hR hRr s hplain, composeAt_absSymbolicLink home remote W R hW hR hRr s hplain⟩
+
+/-- … at a build context whose first-stage value neither starts with `~` nor looks remote … -/
+theorem compose_at_context (home : Option Str) (remote : Str → Bool) (W R : Str) (hW : W ≠ []) (hR : R ≠ [])
+    (hRr : isAbs R = false) (s : String)
+    (hplain : tilde (absContextStr ⟨R, home, remote, some⟩ s.toList) = false)
+    (hlocal : Paths.urlLike s.toList = false → Paths.urlLike (absContextStr ⟨R, home, remote, some⟩ s.toList) = false) :
+    ComposeAt ⟨R, home, remote, some⟩ ⟨W, home, remote, some⟩ ⟨join W R, home, remote, some⟩ "absContextPath" (.str s) :=
+  composeAt_absContextPath home remote W R hW hR hRr s hplain hlocal
+
+/-- … and at a secret / config file whose first-stage value neither starts with `~` nor looks Windows-absolute -/
+theorem compose_at_mount (home : Option Str) (remote : Str → Bool) (W R : Str) (hW : W ≠ []) (hR : R ≠ [])
+    (hRr : isAbs R = false) (s : String) (m : Str)
+    (h1 : maybeUnixStr ⟨R, home, remote, some⟩ s.toList = .ok m)
+    (hplain : tilde m = false ∧ (isAbs (expandUser home s.toList) = false →
+      isWindowsAbs? (expandUser home s.toList) = some false → isWindowsAbs? m = some false)) :
+    ComposeAt ⟨R, home, remote, some⟩ ⟨W, home, remote, some⟩ ⟨join W R, home, remote, some⟩ "maybeUnixPath" (.str s) :=
+  composeAt_maybeUnixPath home remote W R hW hR hRr s m h1 hplain
+
+/-- non-vacuity: directory `sub`, secret file `x` — the hypotheses of `compose_at_mount` hold -/
+example :
+    maybeUnixStr ⟨['s', 'u', 'b'], none, fun _ => false, some⟩ ['x'] = .ok ['s', 'u', 'b', '/', 'x'] ∧
+    tilde ['s', 'u', 'b', '/', 'x'] = false ∧ isWindowsAbs? ['s', 'u', 'b', '/', 'x'] = some false := by decide
 
 end CV.Paths
